@@ -439,7 +439,8 @@ def r4_no_descriptor_writes(report, repo):
               'through a descriptor-typed access path (parameters / attributes '
               'typed as descriptor classes, locals aliasing them) nor through '
               'the run-time aliases options / diagnosers / codeinfo')
-  scope = [(TE, None), (PE, None), (TS, None), (DL, None), (TD, 'Test.execute')]
+  scope = [(TE, None), (PE, None), (TS, None), (DL, None), (TD, 'Test.execute'),
+           (PD, 'PhaseDescriptor.__call__')]
   n_funcs = 0
   n_writes = 0
   for rel, only in scope:
@@ -464,6 +465,8 @@ def r4_no_descriptor_writes(report, repo):
       n_funcs += 1
       dnames = set(a.arg for a in f.node.args.args + f.node.args.kwonlyargs
                    if _ann_is_desc(a.annotation))
+      if f.qualname == 'PhaseDescriptor.__call__':
+        dnames.add('self')  # invoking a phase: self IS the declared descriptor
       fresh = _fresh_locals(f, repo)
       # locals aliasing descriptor names (flow-insensitive union)
       changed = True
@@ -491,7 +494,8 @@ def r4_no_descriptor_writes(report, repo):
         root, hops = _path(acc)
         d = dotted(acc) or norm(acc)
         why = None
-        if root in dnames and hops and '()' not in hops:
+        if root in dnames and (hops or isinstance(node, ast.Call)) and \
+            '()' not in hops:
           why = '`%s` is (an alias of) a declared descriptor object' % root
         elif root == 'self' and f.cls is not None:
           for c, a in desc_attrs:
